@@ -40,6 +40,42 @@ Section Tie.
   Qed.
 End Tie.
 
+(* stack_sub_trajectories: len(set(lengths)) = 1 iff there is a leaf and all leaves have its leading length *)
+Lemma distinct_count_one (l : list nat) :
+  distinct_count l = 1 <-> exists x r, l = x :: r /\ forallb (Nat.eqb x) r = true.
+Proof.
+  unfold distinct_count. split.
+  - intros H. destruct (nodup Nat.eq_dec l) as [|y [|z t]] eqn:E; cbn [length] in H; try discriminate H.
+    assert (Hall : forall w, In w l -> w = y).
+    { intros w Hw. apply (nodup_In Nat.eq_dec) in Hw. rewrite E in Hw. destruct Hw as [Hw | []]. symmetry. exact Hw. }
+    destruct l as [|x r]; [cbn in E; discriminate E|]. exists x, r. split; [reflexivity|].
+    apply forallb_forall. intros w Hw. apply Nat.eqb_eq.
+    rewrite (Hall x (or_introl eq_refl)), (Hall w (or_intror Hw)). reflexivity.
+  - intros (x & r & -> & H). rewrite forallb_forall in H.
+    assert (Hincl : incl (nodup Nat.eq_dec (x :: r)) [x]).
+    { intros w Hw. apply nodup_In in Hw. destruct Hw as [<- | Hw]; [left; reflexivity|]. left. apply Nat.eqb_eq. apply H. exact Hw. }
+    pose proof (NoDup_incl_length (NoDup_nodup Nat.eq_dec (x :: r)) Hincl) as Hle. cbn [length] in Hle.
+    assert (Hin : In x (nodup Nat.eq_dec (x :: r))) by (apply nodup_In; left; reflexivity).
+    destruct (nodup Nat.eq_dec (x :: r)) as [|a t]; [destruct Hin|]. cbn [length] in *. lia.
+Qed.
+
+Lemma stack_sub_tie (A : Type) (leaves : list (list A)) (sub_len : nat) :
+  gen_stack_sub_trajectories leaves sub_len = stack_sub_tree leaves sub_len.
+Proof.
+  unfold gen_stack_sub_trajectories, stack_sub_tree. cbv zeta.
+  destruct leaves as [|l0 ls]; [reflexivity|].
+  change (map (@length A) (l0 :: ls)) with (length l0 :: map (@length A) ls). cbn [hd all_same]. destruct (Nat.eqb (distinct_count (length l0 :: map (@length A) ls)) 1) eqn:E; cbn [negb].
+  - apply Nat.eqb_eq in E. apply distinct_count_one in E. destruct E as (x & r & Hl & Hall). injection Hl as <- <-.
+    rewrite Hall. destruct (Nat.ltb (length l0) sub_len) eqn:E2; [reflexivity|]. f_equal.
+    apply map_ext_in. intros leaf Hin. unfold stack_sub.
+    assert (Hlen : length leaf = length l0).
+    { destruct Hin as [<- | Hin]; [reflexivity|]. rewrite forallb_forall in Hall. symmetry. apply Nat.eqb_eq. apply Hall.
+      apply in_map. exact Hin. }
+    rewrite Hlen, E2. reflexivity.
+  - destruct (forallb (Nat.eqb (length l0)) (map (@length A) ls)) eqn:Hall; [|reflexivity].
+    exfalso. apply Nat.eqb_neq in E. apply E. apply distinct_count_one. exists (length l0), (map (@length A) ls). split; [reflexivity | exact Hall].
+Qed.
+
 (* RepeatedStepper: step = ifft . repeat(step_fourier, n) . fft, never rejected; its dt is n * dt of the inner stepper *)
 Lemma repeated_step_tie (S Sh : Type) (fwd : S -> Sh) (bwd : Sh -> S) (sf : Sh -> Sh) n u :
   gen_repeated_step fwd bwd sf n u = Some (repeated_step fwd bwd sf n u)
